@@ -117,9 +117,10 @@ def rad50(state, string: str) -> bytes:
             for char in string:
                 try:
                     upper_char = char.upper()
-                    if len(upper_char) != 1:
+                    if len(upper_char) != 1 or not char.isascii():
                         # Some characters (e.g. ligatures) turn into several
-                        # characters when upper-cased
+                        # characters when upper-cased, and some non-ASCII
+                        # characters (e.g. dotless i) turn into ASCII letters
                         raise ValueError()
                     val = radix50.TABLE.index(upper_char)
                 except ValueError:
